@@ -24,3 +24,119 @@ def angle_truth():
         yield
     finally:
         P.Exec.decide = orig
+
+
+@contextmanager
+def list_identity():
+    """inside the context (C11 growth round 2): `Vec3.generate(<list parameter of Vec3>)` is the list itself (each element
+    is re-wrapped by `Vec3(v)`, which is the identity on Vec3: theorem vec_ctor_spec, kernel v3ctorV3) and
+    `yield from <list parameter>` is the identity map; used for OCS.points_to_wcs / points_from_wcs"""
+    orig_call, orig_expr = P.Exec.call_func, P.Exec.s_Expr
+
+    def call_func(self, f, args, kwargs, node):
+        if getattr(f.node, "name", "") == "generate" and f.cls is not None and f.cls.name == "Vec3":
+            for a in args:
+                if isinstance(a, P.SymList) and a.elem_type == "v3":
+                    return a
+        return orig_call(self, f, args, kwargs, node)
+
+    def s_Expr(self, st, fr):
+        import ast
+        if isinstance(st.value, ast.YieldFrom):
+            v = self.eval(st.value.value, fr)
+            if isinstance(v, P.SymList) and isinstance(fr.yields, list) and not fr.yields:
+                fr.yields = P.MapResult(v, "e", self.ctx.symbolic(v.elem_type, "e", self, st))
+                return
+        return orig_expr(self, st, fr)
+
+    P.Exec.call_func, P.Exec.s_Expr = call_func, s_Expr
+    try:
+        yield
+    finally:
+        P.Exec.call_func, P.Exec.s_Expr = orig_call, orig_expr
+
+
+@contextmanager
+def acos_argument():
+    """inside the context `math.acos(x)` / C `acos(x)` evaluates to its ARGUMENT: a kernel that ends in `return acos(c)` is
+    translated as the (clamped) cosine c it hands to acos - the decision logic before the transcendental call"""
+    orig = P.Exec.call_builtin
+
+    def call_builtin(self, name, args, kwargs, node):
+        if name in ("acos", "math.acos") and len(args) == 1:
+            return args[0]
+        return orig(self, name, args, kwargs, node)
+
+    P.Exec.call_builtin = call_builtin
+    try:
+        yield
+    finally:
+        P.Exec.call_builtin = orig
+
+
+class PolarAngle(P.Angle):
+    """atan2(y, x) of symbolic numbers: cos = x / r, sin = y / r with r = hypot(x, y) (a square-root parameter of the
+    kernel); for r = 0 (atan2(0, 0) = 0) cos = 1, sin = 0.  These are the defining identities of atan2 over the reals."""
+
+    def __init__(self, y, x, r):
+        super().__init__("polar")
+        self.y, self.x, self.r = y, x, r
+
+
+class SumAngle(P.Angle):
+    def __init__(self, a, b):
+        super().__init__("sum")
+        self.a, self.b = a, b
+
+
+@contextmanager
+def polar_angles():
+    """inside the context: `atan2(y, x)` is a PolarAngle, the sum of two angles a SumAngle whose cos/sin are expanded by the
+    addition theorems, an angle multiplied by a constant (deg -> rad conversion) stays the same symbolic angle (its c_/s_
+    parameters then denote cos/sin of the converted value).  Used for Vec3/Vec2.rotate, rotate_deg."""
+    import ast
+    orig_builtin, orig_binop = P.Exec.call_builtin, P.Exec.binop
+
+    def trig(self, kind, a, node):
+        if isinstance(a, PolarAngle):
+            num = a.x if kind == "cos" else a.y
+            dflt = P.ONE if kind == "cos" else P.ZERO
+            return P.Num(("ite", ("==", a.r.e, P.ZERO), dflt, P.mk("/", num.e, a.r.e)))
+        if isinstance(a, SumAngle):
+            ca, sa = trig(self, "cos", a.a, node), trig(self, "sin", a.a, node)
+            cb, sb = trig(self, "cos", a.b, node), trig(self, "sin", a.b, node)
+            if kind == "cos":
+                return P.Num(P.mk("-", P.mk("*", ca.e, cb.e), P.mk("*", sa.e, sb.e)))
+            return P.Num(P.mk("+", P.mk("*", sa.e, cb.e), P.mk("*", ca.e, sb.e)))
+        return P.Num(("v", self.ctx.trig_param(kind, a.name)))
+
+    def call_builtin(self, name, args, kwargs, node):
+        if name in ("math.atan2", "atan2") and len(args) == 2:
+            y, x = self.num(args[0], node), self.num(args[1], node)
+            r = self.sqrt(P.Num(P.mk("+", P.mk("*", x.e, x.e), P.mk("*", y.e, y.e))))
+            return PolarAngle(y, x, r)
+        if name in ("math.sin", "math.cos") and len(args) == 1 and isinstance(args[0], (PolarAngle, SumAngle)):
+            return trig(self, name[5:], args[0], node)
+        if name in ("math.radians", "math.degrees") and len(args) == 1 and isinstance(args[0], P.Angle):
+            return args[0]  # unit conversion: the same symbolic angle
+        return orig_builtin(self, name, args, kwargs, node)
+
+    def binop(self, op, a, b, node):
+        if isinstance(a, P.Angle) and isinstance(b, P.Angle) and isinstance(op, ast.Add):
+            return SumAngle(a, b)
+        if isinstance(a, P.Builtin) or isinstance(b, P.Builtin):
+            return P.Builtin("const-expr")  # module constant built from M_PI (DEG2RAD = M_PI / 180): only ever a unit factor
+        if isinstance(op, ast.Div) and isinstance(a, P.Angle) and isinstance(b, P.Num) and b.is_const:
+            return a  # half angle etc.: the same symbolic angle (its t_/c_/s_ parameters denote the trig values of the quotient)
+        if isinstance(op, ast.Mult):
+            if isinstance(a, P.Angle) and not isinstance(b, P.Angle) and (isinstance(b, P.Builtin) or (isinstance(b, P.Num) and b.is_const)):
+                return a
+            if isinstance(b, P.Angle) and not isinstance(a, P.Angle) and (isinstance(a, P.Builtin) or (isinstance(a, P.Num) and a.is_const)):
+                return b
+        return orig_binop(self, op, a, b, node)
+
+    P.Exec.call_builtin, P.Exec.binop = call_builtin, binop
+    try:
+        yield
+    finally:
+        P.Exec.call_builtin, P.Exec.binop = orig_builtin, orig_binop
